@@ -29,13 +29,20 @@ def arg_pool(rng, notation=True):
     return base
 
 
-def applications(rng, per_entry, entries=None):
+def cost_table():
+    import json, os
+    return json.load(open(os.path.join(pi2v.VERIF, 'harness/py/lemma_cost.json')))
+
+
+def applications(rng, per_entry, entries=None, max_events=None, interps=False, traces=(False, True)):
     """[(entry, request, expected-binding)] generated from the docstring schemas (premises by construction)"""
     sch = py_run([{'cmd': 'schemas'}], script='genharness.py')[0]
     pool = arg_pool(rng)
     reqs = []
     for name in sorted(sch):
         if entries and name not in entries:
+            continue
+        if max_events is not None and cost_table().get(name, {'events': 10 ** 9})['events'] > max_events:
             continue
         s = sch[name]
         for k in range(per_entry):
@@ -51,12 +58,20 @@ def applications(rng, per_entry, entries=None):
                     args.append({'premise': subst_schema(s['prem'][pi], sg)}); pi += 1
                 else:
                     args.append({'pattern': sg[SVBASE + s['pmap'][pname]]})
-            reqs.append({'cmd': 'lemma', 'entry': name, 'args': args})
+            reqs.append({'cmd': 'lemma', 'entry': name, 'args': args, 'interps': interps, 'traces': list(traces)})
     return reqs, sch
 
 
-def run_applications(reqs):
-    return py_run(reqs, script='genharness.py')
+def run_applications(reqs, nproc=12):
+    """the harness is CPU-bound: split the requests over several harness processes"""
+    from concurrent.futures import ThreadPoolExecutor
+    chunks = [reqs[i::nproc] for i in range(nproc)]
+    with ThreadPoolExecutor(nproc) as ex:
+        outs = list(ex.map(lambda c: py_run(c, script='genharness.py') if c else [], chunks))
+    res = [None] * len(reqs)
+    for i, o in enumerate(outs):
+        res[i::nproc] = o
+    return res
 
 
 def schema_cases(reqs, results):
@@ -67,7 +82,7 @@ def schema_cases(reqs, results):
         s = r['schema']
         cases.append({'fam': 'schema', 'entry': r['entry'], 'prem_schema': s['prem'], 'conc_schema': s['conc'], 'bind': s['bind'],
                       'premises': [a['premise'] for a in q['args'] if 'premise' in a], 'conc': r['conc'],
-                      'methods': sorted({e['m'] for e in r['trace']['events']} | {e['m'] for e in r['trace_opt']['events']}),
+                      'methods': sorted({e['m'] for k in ('trace', 'trace_opt') if k in r for e in r[k]['events']}),
                       'doc': s['doc']})
     return cases
 
@@ -87,6 +102,8 @@ def module_traces(reqs, results):
         if not r.get('built'):
             continue
         for key, opt in (('trace', False), ('trace_opt', True)):
+            if key not in r:
+                continue
             t = r[key]
             traces.append({'phase': 'gamma', 'claims': [], 'events': t['events'], 'final': t['final'], 'name': r['entry'], 'optimize': opt,
                            'error': t['error'], 'files': t['files'], 'args': q['args']})
